@@ -846,3 +846,102 @@ class FakeSnowflakeCursor:
   ("cursor", """            expression = parse_one(command, read="snowflake")
             for exp in self._transform_explode(expression):""", """            expression = _parse(command)
             for exp in self._transform_explode(expression):"""))
+
+# ---------------------------------------------------------------- batch-12 rules
+V("c02-length-keys-lowered", A, "C02", "C02.j",
+  ("info_schema", """f"('{catalog}', '{schema}', '{table}', '{col_name}', {size}, {min(size*4,16777216)})\"""",
+   """f"('{catalog}', '{schema}', '{table}', '{col_name.lower()}', {size}, {min(size*4,16777216)})\""""))
+V("c02-neutral-length-row-helper", N, ["C02", "C09"], None,
+  ("info_schema", """    values = ", ".join(
+        f"('{catalog}', '{schema}', '{table}', '{col_name}', {size}, {min(size*4,16777216)})"
+        for (col_name, size) in text_lengths
+    )
+""", """    prefix = f"('{catalog}', '{schema}', '{table}', "
+    values = ", ".join(prefix + f"'{col_name}', {size}, {min(size*4,16777216)})" for (col_name, size) in text_lengths)
+"""))
+V("c05-dict-rows-first-batch", A, "C05", "C05.h",
+  ("cursor", "            return tslice.to_pylist()\n", "            return tslice.to_batches()[0].to_pylist()\n"))
+V("c05-neutral-combine-chunks", N, "C05", None,
+  ("cursor", "            return tslice.to_pylist()\n", "            return tslice.combine_chunks().to_pylist()\n"))
+V("c06-describe-through-rewrite-chain", A, "C06", "C06.c",
+  ("cursor", "            cur._execute(expression, self._last_params)  # noqa: SLF001",
+   "            cur._execute(cur._transform(expression), self._last_params)  # noqa: SLF001"))
+V("c07-exploded-skip-guard", A, "C07", "C07.k",
+  ("cursor", """            for exp in self._transform_explode(expression):
+                transformed = self._transform(exp)
+                self._execute(transformed, params)
+""", """            statements = self._transform_explode(expression)
+            for exp in statements:
+                transformed = self._transform(exp)
+                self._execute(transformed, params, generated=len(statements) > 1)
+"""),
+  ("cursor", "    def _execute(self, transformed: exp.Expression, params: Sequence[Any] | dict[Any, Any] | None = None) -> None:",
+   "    def _execute(self, transformed: exp.Expression, params: Sequence[Any] | dict[Any, Any] | None = None, generated: bool = False) -> None:"),
+  ("cursor", "        no_database, no_schema = checks.is_unqualified_table_expression(transformed)\n",
+   "        no_database, no_schema = (False, False) if generated else checks.is_unqualified_table_expression(transformed)\n"))
+V("c08-placeholders-numbered-by-depth", A, "C08", "C08.d",
+  ("cursor", """            expression = parse_one(command, read="snowflake")
+            for exp in self._transform_explode(expression):""", """            expression = parse_one(command, read="snowflake")
+            if params and not isinstance(params, dict):
+                self._number_placeholders(expression)
+            for exp in self._transform_explode(expression):"""),
+  ("cursor", """    def _inline_variables(self, sql: str) -> str:""", """    def _number_placeholders(self, expression: exp.Expression) -> None:
+        for i, p in enumerate(expression.find_all(exp.Placeholder), start=1):
+            if not p.this:
+                p.set("this", str(i))
+
+    def _inline_variables(self, sql: str) -> str:"""))
+V("c08-neutral-placeholders-numbered-in-text-order", N, "C08", None,
+  ("cursor", """            expression = parse_one(command, read="snowflake")
+            for exp in self._transform_explode(expression):""", """            expression = parse_one(command, read="snowflake")
+            if params and not isinstance(params, dict):
+                self._number_placeholders(expression)
+            for exp in self._transform_explode(expression):"""),
+  ("cursor", """    def _inline_variables(self, sql: str) -> str:""", """    def _number_placeholders(self, expression: exp.Expression) -> None:
+        for i, p in enumerate(expression.find_all(exp.Placeholder, bfs=False), start=1):
+            if not p.this:
+                p.set("this", str(i))
+
+    def _inline_variables(self, sql: str) -> str:"""))
+V("c11-any-function-unquotes", A, "C11", "C11.d",
+  ("transforms", "        isinstance(expression, (exp.Upper, exp.Lower))\n        and (gp := expression.this)",
+   "        isinstance(expression, exp.Func)\n        and not isinstance(expression, exp.Cast)\n        and (gp := expression.this)"))
+V("c12-on-first-conjunct-only", A, "C12", "C12.l",
+  ("transforms_merge", """    source_tbl = source.alias if isinstance(source, exp.Subquery) else source
+    join_expr = merge_expr.args.get("on")
+
+    statements""", """    source_tbl = source.alias if isinstance(source, exp.Subquery) else source
+    join_expr = merge_expr.args.get("on")
+    if isinstance(join_expr, exp.And):
+        join_expr = join_expr.this
+
+    statements"""))
+V("c16-nop-status-rewritten", A, "C16", "C16.b",
+  ("cursor", "                transformed = transforms.SUCCESS_NOP\n", "                transformed = self._transform(transforms.SUCCESS_NOP)\n"))
+V("c17-column-infos-by-name", A, "C17", "C17.i",
+  ("server", """        if cur._arrow_table:  # noqa: SLF001
+            batch_bytes""", """        if cur._arrow_table:  # noqa: SLF001
+            column_info = {c["name"]: c for c in rowtype}
+            rowtype = [column_info[name] for name in cur._arrow_table.column_names]  # noqa: SLF001
+            batch_bytes"""))
+V("c18-existing-file-not-attached", A, "C18", "C18.a",
+  ("transforms", """        if_not_exists = "IF NOT EXISTS " if expression.args.get("exists") else ""
+""", """        if expression.args.get("exists") and db_path and Path(db_file).exists():
+            return sqlglot.parse_one(f"SELECT '{db_name} already exists, statement succeeded.' AS status")
+
+        if_not_exists = "IF NOT EXISTS " if expression.args.get("exists") else ""
+"""))
+V("c03-show-schemas-database-at-cursor-creation", A, "C03", "C03.h",
+  ("cursor", "        self._conn = conn\n        self._duck_conn = duck_conn\n", "        self._conn = conn\n        self._database_then = conn.database\n        self._duck_conn = duck_conn\n"),
+  ("cursor", "            .transform(lambda e: transforms.show_schemas(e, self._conn.database))", "            .transform(lambda e: transforms.show_schemas(e, self._database_then))"))
+V("c04-insert-values-batched", A, "C04", "C04.l",
+  ("cursor", "        return transforms.merge(expression)\n", """        values = expression.expression if isinstance(expression, exp.Insert) else None
+        if isinstance(values, exp.Values) and len(values.expressions) > 1000:
+            batches = []
+            for i in range(0, len(values.expressions), 1000):
+                batch = expression.copy()
+                batch.expression.set("expressions", values.expressions[i : i + 1000])
+                batches.append(batch)
+            return batches
+        return transforms.merge(expression)
+"""))
